@@ -147,7 +147,8 @@ def site_of(op, cfg):
 
 def opt_sig(cfg):
     keys = sorted(k for k in cfg if k not in ('seed', 'recipe', 'S', 'R', 'D',
-                                              'deltas', 'shape', 'tree'))
+                                              'deltas', 'shape', 'tree',
+                                              'c10_only'))
     return ','.join('{}={}'.format(k, cfg[k]) for k in keys)[:120]
 
 
